@@ -59,6 +59,7 @@ class MapFuture(_Future):
         self._set_delegate(None)
 
         if delegate.cancelled():
+            self._me_delegate_cancelled()
             return
 
         ex = delegate.exception()
